@@ -1,5 +1,6 @@
 """C14 - R-tree: partition coverage, extent fold, closed-interval overlap tests, union of results,
 termination measure, no shared mutable class state."""
+
 import ast
 import itertools
 
@@ -9,6 +10,10 @@ from ..interp import (Interp, Hooks, Opaque, Tup, Const, Cmp, State, ObjRef, Eff
                       NONE, fold_cond, COND_TYPES, Truthy, NotC, Sym as _Sym)
 from ..order import weak_orderings, OrderCase, describe
 from ..model import AnalysisError
+
+# the recursive construction Index(...) inside Index.__init__ is the induction step of D1/D2, not
+# an unmodelled construct
+EXPECTED_GAPS = {('instance', 'rtree.Index')}
 
 ROLES = ('xlo', 'ylo', 'xhi', 'yhi')   # box tuple layout (xmin, ymin, xmax, ymax) - the public format
 
